@@ -111,7 +111,7 @@ def build(sc, grad=None, x64=True):
     ssw = switch_of(j, sc.get("src_switch"))
     if sc.get("src", "dipole") == "dipole":
         s = fdtdx.PointDipoleSource(name="src", partial_grid_shape=(1, 1, 1), wave_character=wave,
-                                    polarization=sc.get("pol", 2), switch=ssw)
+                                    polarization=sc.get("pol", 2), switch=ssw, amplitude=sc.get("amp", 1.0))
     else:
         s = fdtdx.UniformPlaneSource(name="src", partial_grid_shape=(None, None, 1), wave_character=wave, direction="+",
                                      fixed_E_polarization_vector=(1, 0, 0), switch=ssw)
